@@ -1,6 +1,6 @@
 (* C17 — memory use is bounded by the configured tag size limit, whatever input claims.  Statements only. *)
 From Ebml Require Import Base Tools Spec Reader Pure Proofs.Tactics Proofs.ReaderIO Proofs.Refine Proofs.CapBound
-  Proofs.Extents Proofs.NoOverflow.
+  Proofs.Extents Proofs.NoOverflow Proofs.AuditLimit.
 
 (* With a size limit of m bytes the internal buffer never grows beyond max(initial capacity, 16, m): for every input, every
    tolerance setting / buffered set / EOF-closing setting, every source script (short reads, Ok(0) pauses and I/O errors
@@ -25,6 +25,56 @@ Theorem C17_error_before_payload : forall c st0,
                    | (st, Ok h) => tag_tail c st (r_off st0) h
                    end.
 Proof. exact read_tag_unfold. Qed.
+
+(* the three statements above composed (Proofs/AuditLimit.v), on the buffered machine, for every source script.
+   Forward: the 16-byte header read succeeds, the id decodes (id, idl bytes) and the size field decodes to a KNOWN size n above
+   the limit m.  Then read_tag (1) does not return a tag, (2) leaves the buffer no longer than max(previous length, 16) - nothing
+   is allocated or read for the payload - and (3) when the earlier header checks pass (a numeric element declares at most 8
+   bytes; the id is known or unknown ids are tolerated; the hierarchy step [hier_step] raises no error and no bad-specification
+   panic, leaving st3; the element stays inside the enclosing known-size masters or oversized children are tolerated) returns
+   exactly the size error InvalidTagSize at the element's offset with the declared size.  (If an earlier check fails, ITS error
+   is returned instead - C13_header_error_priority - still without growth.) *)
+Theorem C17_size_above_limit_rejected : forall c st0 m st1 b st2 id idl size sl n,
+  c_max c = Some m -> ensure 16 st0 = (st1, Ok b) -> peek_tag_id st1 = (st2, Ok (id, idl)) ->
+  read_vint (firstn 8 (skipn idl (r_win st2))) = Ok (Some (size, sl)) -> ebml_size size sl = SKnown n -> m < n ->
+  (forall p, snd (read_tag c st0) <> Ok p) /\
+  r_cap (fst (read_tag c st0)) <= N.max (r_cap st0) 16 /\
+  (forall st3, is_numeric (get_type (c_sp c) id) && (8 <? size) = false ->
+     (c_allow_id c = true \/ get_type (c_sp c) id <> None) ->
+     hier_step c st2 id (get_type (c_sp c) id) = (st3, None) -> r_bad st3 = None ->
+     negb (c_allow_over c) && is_invalid_tag_size st3 (N.of_nat (idl + sl) + n) = false ->
+     read_tag c st0 = (st3, Err (RInvalidSize (r_off st2) id n))).
+Proof. exact size_above_limit_rejected. Qed.
+
+(* Backward: whenever read_tag returns the size error, a limit is configured and the declared size is above it, the state is the
+   one the header check left, and the buffer is no longer than max(previous length, 16) *)
+Theorem C17_size_error_no_growth : forall c st0 st' pos id n, read_tag c st0 = (st', Err (RInvalidSize pos id n)) ->
+  (exists m, c_max c = Some m /\ m < n) /\ st' = fst (peek_header c st0) /\ r_cap st' <= N.max (r_cap st0) 16.
+Proof. exact size_error_no_growth. Qed.
+
+(* The peak.  C17_buffer_bounded bounds the buffer length in the state a run ENDS in - for every sequence of calls, hence after
+   every prefix of calls too.  Inside a call the bound holds as well, because the buffer length never decreases (there is no
+   shrinking in the code: ensure_capacity only resizes upwards): through a refill, a header check, a tag read, next(),
+   try_recover() and any sequence of calls the length can only grow, so the length a call or a run ends with is the largest the
+   buffer has had at any moment before *)
+Theorem C17_cap_monotone_ensure : forall n st, r_cap st <= r_cap (fst (ensure n st)).
+Proof. exact cap_monotone_ensure. Qed.
+Theorem C17_cap_monotone_peek_header : forall c st, r_cap st <= r_cap (fst (peek_header c st)).
+Proof. exact cap_monotone_peek_header. Qed.
+Theorem C17_cap_monotone_read_tag : forall c st, r_cap st <= r_cap (fst (read_tag c st)).
+Proof. exact cap_monotone_read_tag. Qed.
+Theorem C17_cap_monotone_next : forall c st, r_cap st <= r_cap (fst (next c st)).
+Proof. exact cap_monotone_next. Qed.
+Theorem C17_cap_monotone_try_recover : forall c st, r_cap st <= r_cap (fst (try_recover c st)).
+Proof. exact cap_monotone_try_recover. Qed.
+Theorem C17_cap_monotone_run : forall c limit ops st, r_cap st <= r_cap (fst (run_ops c limit st ops)).
+Proof. exact cap_monotone_run. Qed.
+
+(* ... in particular the buffer length after any prefix of the calls of a run is at most the buffer length at its end: the
+   final length is the peak *)
+Theorem C17_final_is_peak : forall c cap0 script input ops1 ops2,
+  fst (run_reader_cap c cap0 script input ops1) <= fst (run_reader_cap c cap0 script input (ops1 ++ ops2)).
+Proof. exact cap_final_is_peak. Qed.
 
 (* non-vacuity: 2^56-2 bytes declared with a 5-byte limit: size error, buffer stays at 16; a 5-byte declaration passes *)
 Example C17_ex :
